@@ -148,6 +148,15 @@ theorem id_sound_filter (r : CSt Nat → CSt Nat → Prop) (hr : FBN.Filters r) 
 
 theorem ignoresBool (dst : Nat) : FBN.IgnoresBool N0 dst := fun _ _ _ h => h
 
+theorem n0_meetLower : N0.MeetLower := by
+  intro (a : List C0) (b : List C0) s h
+  exact ⟨fun c hc => h c (List.mem_append.2 (Or.inl hc)), fun c hc => h c (List.mem_append.2 (Or.inr hc))⟩
+
+theorem n0_topSound : N0.TopSound := by
+  intro (b : List C0) s h c hc
+  have : b = [] := List.isEmpty_iff.1 h
+  subst this; cases hc
+
 abbrev St0 := FBN N0
 
 end FBInst
